@@ -30,8 +30,8 @@ pub fn prop() -> Prop {
         id: "C20",
         level: "other",
         runs: |t| match t {
-            Tier::Quick => 240,
-            Tier::Thorough => 4000,
+            Tier::Quick => 2400,
+            Tier::Thorough => 30000,
         },
         generate,
         exec,
